@@ -145,7 +145,13 @@ func xSchemaFromIntrospection() (interface{}, error) {
 // ---- ill-formed selection trees ---------------------------------------------------------------
 
 // c14Mutate applies one ill-forming mutation somewhere in the query and says which.
-func c14Mutate(r *Rand, q *xQuery) string {
+var c14Kinds = []string{"unknown_field", "sub_on_scalar", "no_sub_on_object", "alias_conflict", "field_on_union", "typename_sub", "foreign_fragment", "root_typename", "shared_fragment_elsewhere"}
+
+func c14Mutate(r *Rand, q *xQuery) string { return c14MutateAt(r, q, -1, "") }
+
+// c14MutateAt: the mutation `kind` at the site-th selection set of the query (site < 0, kind "": chosen at random);
+// "" when the mutation does not apply there
+func c14MutateAt(r *Rand, q *xQuery, site int, kind string) string {
 	var sets []*xSelSet
 	var typs []string
 	seen := map[*xSelSet]bool{}
@@ -167,9 +173,16 @@ func c14Mutate(r *Rand, q *xQuery) string {
 		}
 	}
 	walk(q.Set, "Q")
-	i := r.Intn(len(sets))
+	i := site
+	if i < 0 {
+		i = r.Intn(len(sets))
+	} else if i >= len(sets) {
+		return ""
+	}
 	ss, typ := sets[i], typs[i]
-	kind := []string{"unknown_field", "sub_on_scalar", "no_sub_on_object", "alias_conflict", "field_on_union", "typename_sub", "foreign_fragment", "root_typename", "shared_fragment_elsewhere", "shared_fragment_elsewhere"}[r.Intn(10)]
+	if kind == "" {
+		kind = []string{"unknown_field", "sub_on_scalar", "no_sub_on_object", "alias_conflict", "field_on_union", "typename_sub", "foreign_fragment", "root_typename", "shared_fragment_elsewhere", "shared_fragment_elsewhere"}[r.Intn(10)]
+	}
 	pick := func(pred func(*xSel) bool) *xSel {
 		var c []*xSel
 		for _, s := range ss.Sels {
